@@ -10,6 +10,7 @@ Drivers
   C17.sigtext    totality of verify over signature text: every first byte x r alphabet x s alphabet (65 bytes), every other
                  length 0..70, non-base64 / wrongly padded / non-ASCII text; the reference recovery decides which are valid
 """
+import re
 import base64
 import contextlib
 import io
@@ -93,6 +94,9 @@ MESSAGES = [
     dict(name="formfeed-vt", text="page one\x0cpage two\x0bcolumn\nlast line"),
     dict(name="unicode-separators", text="a\u2028b\u2029c\x85d\x1ce\x1df\x1eg"),
     dict(name="trailing-spaces", text="ends with blanks   "),
+    # the same separators inside a message whose newline style is CRLF (the DOS route of the armour parser; round 6, C17-x2)
+    dict(name="crlf-formfeed-vt", text="page one\x0cpage two\x0bcolumn\r\nlast line"),
+    dict(name="crlf-unicode-separators", text="a\u2028b\u2029c\x85d\x1ce\x1df\x1eg\r\nend"),
 ]
 
 
@@ -236,6 +240,13 @@ class Roundtrip(Driver):
                 res, err = call_verify(net, a2, s2, m2)
                 n += 1
                 want_bool("parsed armoured message", "parsed address", True, res, err)
+                if "\r\n" in text or "\n" not in text:
+                    # the same armour as a DOS text file (every line ends in CRLF): one newline style throughout
+                    parsed = net.msg.parse_signed(re.sub(r"(?<!\r)\n", "\r\n", arm))
+                    n += 1
+                    if tuple(parsed) != (text, addr, sig):
+                        raise Mismatch("armour-roundtrip-dos", "(message, %s, %s)" % (addr, sig),
+                                       "(%r, %r, %r)" % (parsed[0][:60], parsed[1], parsed[2]), clause="armour")
         except Mismatch as mm:
             return BAD(mm.cls, mm.ref, mm.impl, n=n, **mm.tags)
         except Exception as ex:
